@@ -102,7 +102,9 @@ func genSpec(rng *rand.Rand, id int) Spec {
 		}
 		if rng.IntN(4) == 0 {
 			// a multicast reader whose second SETUP races with ServerStream.Close (fixed: 9233c87)
-			sp.Peers = append(sp.Peers, PeerSpec{Kind: "raw", Mode: "mcast2", Proto: "mcast"})
+			for k := 1 + rng.IntN(4); k > 0; k-- {
+				sp.Peers = append(sp.Peers, PeerSpec{Kind: "raw", Mode: "mcast2", Proto: "tcp"})
+			}
 		}
 		sp.ClosePoint = rng.IntN(NumSteps)
 		sp.Joiner = rng.IntN(3) == 0
